@@ -272,6 +272,19 @@ def A_leaf_keys(qual, coqname, inner, keypos):
     if not ok:
       raise Unsupported(f'{qual}: loop is not `for l, r, .. in zip(leaves, rngs, ..)`')
     lname, rname = lp.target.elts[0].id, lp.target.elts[1].id
+    # the loop body must be straight-line code that calls `inner` once per leaf with that leaf's own key:
+    # no branch, no lookup table / cache, no other call than `inner` and `<list>.append`
+    for n in (m for st in lp.body for m in ast.walk(st)):
+      if isinstance(n, (ast.If, ast.IfExp, ast.While, ast.For, ast.Try, ast.With, ast.Subscript, ast.Dict, ast.Set,
+                        ast.ListComp, ast.DictComp, ast.SetComp, ast.GeneratorExp, ast.Lambda, ast.BoolOp, ast.Compare,
+                        ast.Continue, ast.Break, ast.Return)):
+        raise Unsupported(f'{qual}: the per-leaf loop contains {type(n).__name__} (conditional / cache / lookup); '
+                          f'every leaf must be processed with its own key')
+      if isinstance(n, ast.Call):
+        okc = (isinstance(n.func, ast.Name) and n.func.id == inner) or \
+              (isinstance(n.func, ast.Attribute) and n.func.attr == 'append' and isinstance(n.func.value, ast.Name))
+        if not okc:
+          raise Unsupported(f'{qual}: unexpected call inside the per-leaf loop')
     calls = [n for n in ast.walk(lp) if isinstance(n, ast.Call) and
              ((isinstance(n.func, ast.Name) and n.func.id == inner))]
     if len(calls) != 1 or calls[0].keywords or len(calls[0].args) <= keypos:
